@@ -292,7 +292,11 @@ def judge(run, job, wf_lines):
             if wf is None:
                 v.append(("wf-no-verdict", "the dump of the loaded topology could not be judged by wf_check"))
             elif not wf.startswith("wf ok"):
-                if set(clauses) <= SET_CLAUSES:
+                if job.origin.startswith(("valid:", "filter:")):
+                    # an unmutated valid document (export of a valid topology, bundled XML file), whatever the filters:
+                    # never covered by the known acceptance of inconsistent documents
+                    v.append(("wf-valid-document:%s" % ",".join(clauses), "a VALID document (%s) loads into a topology that violates WF clause(s) %s" % (job.origin[:120], ",".join(clauses))))
+                elif set(clauses) <= SET_CLAUSES:
                     v.append(("inconsistent-sets-accepted", "load succeeds on XML whose object sets / indexes / root type are inconsistent; the topology violates WF clause(s) %s" % ",".join(clauses)))
                 else:
                     v.append(("wf:%s" % ",".join(c for c in clauses if c not in SET_CLAUSES), "loaded topology violates WF clause(s) %s" % ",".join(clauses)))
@@ -421,6 +425,43 @@ def make_jobs(run, exe, scratch):
     ulens = (list(range(0, 13)) + [54, 55, 56, 57, 58, 102, 103, 104, 127, 128, 129, 130]) if quick else list(range(0, 131))
     for k, (m, desc) in enumerate(G.userdata_docs(ulens)):
         add("topo", m, desc, backends=(k % 2,), tflags=0, opts=4 | (1, 1, 1, 1, 2, 0)[k % 6] | (8 if k % 3 == 0 else 0))
+    # 2d. VALID documents under type-filter assignments: exports of synthetic topologies whose indexes are shuffled /
+    #     interleaved on every level, and the bundled XML files, loaded with KEEP_NONE on each normal type present in
+    #     turn, on pairs of them, and with KEEP_STRUCTURE: children of a dropped object are re-attached to its parent
+    def fopts(a, b=None, val=1):
+        return ((a + 1) << 10) | (((b + 1) << 15) if b is not None else 0) | (val << 20)
+    inter = ["pack:2 core:2 pu:2(indexes=0,4,2,6,1,5,3,7)", "pack:2(indexes=1,0) core:2(indexes=2,0,3,1) pu:2(indexes=7,3,5,1,6,2,4,0)",
+             "pack:2 [numa] l2:2 core:1 pu:2(indexes=0,2,4,6,1,3,5,7)", "group:2 pack:2 core:1 pu:2(indexes=0,4,1,5,2,6,3,7)",
+             "pack:2 die:2 l3:1 l2:1 l1:1 core:1 pu:1(indexes=3,1,2,0)", "[numa] pack:3(indexes=2,0,1) l1i:1 core:2 pu:1(indexes=5,0,3,1,4,2)"]
+    if not quick:
+        inter += [S.gen_synthetic(rng, max_pus=16) for _ in range(30)]
+    ijobs = []
+    for i, d in enumerate(inter):
+        p = os.path.join(scratch, "inter%d" % i)
+        with open(p, "w") as f:
+            f.write(d + "\n")
+        j = Job("synth", 0, "buf", 0, 0, b"", "synthetic")
+        j.id, j.path = "i%d" % i, p
+        ijobs.append(j)
+    C.sh([exe], input="".join(j.line() for j in ijobs).encode(), env=C.run_env(), timeout=300)
+    fdocs = []
+    for j in ijobs:
+        for suf in (".v3.xml", ".v2.xml"):
+            if os.path.exists(j.path + suf):
+                fdocs.append(("interleaved/" + open(j.path).read().strip() + suf, open(j.path + suf, "rb").read()))
+    fdocs += [(n, d) for n, d in seeds[4:4 + len(xmls)] if len(d) <= (60000 if quick else 400000)]
+    k = 0
+    for name, data in fdocs:
+        present = sorted(set(G.TYPE_VALUES.index(t) for t in re.findall(rb'<object type="([A-Za-z0-9]+)"', data) if t in G.TYPE_VALUES[:20]))
+        filterable = [t for t in present if t in (1, 2, 3, 5, 6, 7, 8, 9, 10, 11, 12, 13)]
+        combos = [(t, None, 1) for t in filterable] + [(a, b, 1) for ai, a in enumerate(filterable) for b in filterable[ai + 1:]][:(4 if quick or not name.startswith("interleaved") else 40)]
+        combos += [(t, None, 2) for t in filterable[:2]]
+        if not name.startswith("interleaved") and quick:
+            combos = combos[:3]
+        for a, b, val in combos:
+            k += 1
+            add("topo", data, "filter:%s:%s%s=%d" % (name, G.TYPE_VALUES[a].decode(), ("+" + G.TYPE_VALUES[b].decode()) if b is not None else "", val),
+                backends=(k % 2,), tflags=0, opts=fopts(a, b, val) | (8 if k % 3 == 0 else 0))
     # 3. truncation at every byte of the small documents (nolibxml), sampled for libxml
     for name, data in (seeds[2:3] if quick else seeds[2:4] + [seeds[0]]):
         for k in range(len(data) + 1):
@@ -750,7 +791,7 @@ def check(run, replay=None):
         for key, (j, what) in sorted(found.items()):
             known = any(re.fullmatch(k["key"], key) for k in run.known)
             jj = j
-            if not known and not replay and key not in ("not-run",) and len(j.data) > 40 and not key.startswith("feature:"):
+            if not known and not replay and key not in ("not-run",) and len(j.data) > 40 and not key.startswith(("feature:", "wf-valid-document")):   # (a valid document stays as it is: shrinking would make it an invalid one)
                 try:
                     jj = shrink(run, exe, wfdrv, j, key, scratch)
                 except Exception:
